@@ -222,35 +222,48 @@ Theorem C38_invalid_magic_rejected : forall ipf b,
 Proof. exact invalid_magic_rejected. Qed.
 Print Assumptions C38_invalid_magic_rejected.
 
-(* ================================================================== *)
-(* Deviations of the code from the property (findings), proved of the faithful model and
-   reproduced on the implementation (corpus/C38/known.txt).                               *)
-
-(* "malformed headers are rejected" is FALSE for bytes after the destination port:
-   "PROXY TCP4 1.1.1.1 1.1.1.1 1 2xyz\r\n" is accepted with destination port 2 *)
-Theorem C38_v1_bytes_after_dst_port_refuted : forall ipf,
-  ipf b_1111 = Some a_1111 ->
-  pp_parse ipf line_trailing =
-  Ok {| h_v2 := false; h_cmd := pp_cmdProxy; h_ignore := false;
-        h_src := a_1111; h_sport := 1; h_dst := a_1111; h_dport := 2; h_tlvs := [] |} (lenN line_trailing).
-Proof. exact v1_bytes_after_dst_port_refuted. Qed.
-Print Assumptions C38_v1_bytes_after_dst_port_refuted.
-
-(* in general: ANY bytes (not starting with a digit, no CR) after the destination port are ignored *)
-Theorem C38_v1_trailing_bytes_ignored_refuted : forall ipf fam st dt sa da sps dps junk rest,
+(* bytes after the digits of the destination port (anything that is not a further digit, no CR):
+   rejected, whatever follows the line (holds since the repair of One::Parse, /repo ea1b14e) *)
+Theorem C38_v1_bytes_after_dst_port_rejected : forall ipf fam st dt sa da sps dps junk rest,
   st <> [] -> dt <> [] -> forallb ipChars st = true -> forallb ipChars dt = true ->
-  ipf st = Some sa -> ipf dt = Some da ->
-  ((fam = 52 /\ is_ipv4 sa = true /\ is_ipv4 da = true) \/ (fam = 54 /\ is_ipv4 sa = false /\ is_ipv4 da = false)) ->
-  sps <> [] -> Forall is_dec sps -> dec_value sps <= 65535 ->
-  dps <> [] -> Forall is_dec dps -> dec_value dps <= 65535 ->
-  stops10 junk -> forallb nonCR junk = true ->
+  ipf st = Some sa -> ipf dt = Some da -> famChars fam = true ->
+  sps <> [] -> Forall is_dec sps -> dps <> [] -> Forall is_dec dps ->
+  junk <> [] -> stops10 junk -> forallb nonCR junk = true ->
   lenN (fam :: 32 :: st ++ 32 :: dt ++ 32 :: sps ++ 32 :: dps ++ junk) <= 96 ->
-  pp_parse ipf (pp_magic1 ++ (32 :: s_TCP ++ fam :: 32 :: st ++ 32 :: dt ++ 32 :: sps ++ 32 :: dps ++ junk) ++ 13 :: 10 :: rest) =
-  Ok {| h_v2 := false; h_cmd := pp_cmdProxy; h_ignore := false;
-        h_src := sa; h_sport := dec_value sps; h_dst := da; h_dport := dec_value dps; h_tlvs := [] |}
-     (lenN pp_magic1 + (lenN (32 :: s_TCP ++ fam :: 32 :: st ++ 32 :: dt ++ 32 :: sps ++ 32 :: dps ++ junk) + 1 + 1)).
-Proof. exact v1_tcp_trailing_bytes_ignored. Qed.
-Print Assumptions C38_v1_trailing_bytes_ignored_refuted.
+  exists e,
+  pp_parse ipf (pp_magic1 ++ (32 :: s_TCP ++ fam :: 32 :: st ++ 32 :: dt ++ 32 :: sps ++ 32 :: dps ++ junk) ++ 13 :: 10 :: rest)
+  = Reject e.
+Proof. exact v1_trailing_bytes_rejected. Qed.
+Print Assumptions C38_v1_bytes_after_dst_port_rejected.
+
+(* the former finding: "PROXY TCP4 1.1.1.1 1.1.1.1 1 2xyz\r\n" followed by anything *)
+Theorem C38_v1_trailing_xyz_rejected : forall ipf,
+  ipf b_1111 = Some a_1111 ->
+  forall rest, pp_parse ipf (line_trailing ++ rest) = Reject E1_garbage_after_dst_port.
+Proof. exact v1_bytes_after_dst_port_rejected. Qed.
+Print Assumptions C38_v1_trailing_xyz_rejected.
+
+(* converse of the round trip (the statement that the trailing bytes used to falsify): every input
+   on which Parse reports a v1 header with addresses starts with a well-formed TCP line — exactly
+   "PROXY TCP" fam SP src SP dst SP digits SP digits CRLF, at most 107 bytes — the reported fields
+   are the written ones and the consumed size is the length of that line *)
+Theorem C38_v1_accepted_line_is_wellformed : forall ipf b h n,
+  pp_parse ipf b = Ok h n -> h_v2 h = false -> h_ignore h = false ->
+  exists fam st dt sps dps rest,
+    b = enc_v1_tcp fam st dt sps dps ++ rest /\ n = lenN (enc_v1_tcp fam st dt sps dps) /\
+    n <= v1_maxHeaderLength /\
+    famChars fam = true /\ address_family (h_src h) (h_dst h) = [fam] /\
+    st <> [] /\ forallb ipChars st = true /\ ipf st = Some (h_src h) /\
+    dt <> [] /\ forallb ipChars dt = true /\ ipf dt = Some (h_dst h) /\
+    sps <> [] /\ Forall is_dec sps /\ h_sport h = dec_value sps /\ h_sport h <= 65535 /\
+    dps <> [] /\ Forall is_dec dps /\ h_dport h = dec_value dps /\ h_dport h <= 65535 /\
+    h_cmd h = pp_cmdProxy /\ h_tlvs h = [].
+Proof. exact v1_accepted_is_wellformed. Qed.
+Print Assumptions C38_v1_accepted_line_is_wellformed.
+
+(* ================================================================== *)
+(* Deviation of the code from the property (finding), proved of the faithful model and
+   reproduced on the implementation (corpus/C38/known.txt).                               *)
 
 (* "every well-formed header is parsed" is FALSE for TCP6 with a v4-mapped address:
    "PROXY TCP6 ::ffff:1.1.1.1 ::1 1 2\r\n" is rejected as a family mismatch *)
